@@ -736,6 +736,9 @@ class Parser:
             if self.tol:
                 self.i += 1
                 return N("opaque", text=t.text)
+            if t.kind == "str":
+                self.i += 1
+                return N("strlit", text=t.text)     # only accepted inside the payload of `Err(..)` (dropped)
             raise Unsupported("string / char literals are not supported")
         if t.kind == "punct":
             if t.text == "(":
@@ -904,6 +907,14 @@ class Parser:
                     end = skip_group(self.t, start)
                     self.i = end
                     return N("macrocall", name="::".join(segs), toks=self.t[start + 1:end - 1], delim=self.t[start].text)
+                if segs == ["assert"] and self.peek(1).text == "(":
+                    # `assert!(cond, msg…)`: the condition becomes a conjunct of `<fn>_ok` (phase 4); the message is dropped
+                    self.i += 1
+                    end = skip_group(self.t, self.i)
+                    self.i += 1
+                    c = self.expr()
+                    self.i = end
+                    return N("assert", c=c)
                 raise Unsupported(f"macro `{'::'.join(segs)}!` is not supported")
         if self.at("{") and not nostruct and segs[-1][0].isupper():
             self.i += 1
@@ -1383,6 +1394,9 @@ class Checker:
             return ("option", self.resolve_type(args[0]))
         if n == "Vec" and len(args) == 1:
             return ("vec", self.resolve_type(args[0]))
+        if n == "Bitmap" and not args:
+            # `croaring::Bitmap`: a finite set of u32 = the strictly ascending list of its elements (phase 4)
+            return ("vec", "u32")
         if n == "Range" and len(args) == 1:
             t = self.resolve_type(args[0])
             return ("tuple", (t, t))     # a half-open range is translated as the pair (start, end)
@@ -1604,6 +1618,9 @@ class Checker:
             return self.infer_structlit(e)
         if k == "closure":
             raise Unsupported("closure outside an iterator method argument")
+        if k == "assert":
+            unify(self.infer(e.c), "bool", "in `assert!`")
+            return "unit"
         if k == "assign":
             tgt = e.target
             while tgt.kind == "paren" or (tgt.kind == "un" and tgt.op == "*"):
@@ -1918,7 +1935,10 @@ class Checker:
             def plain(x):
                 while x.kind == "paren":
                     x = x.e
-                return x.kind in ("path", "lit", "boollit") or (x.kind == "call" and all(plain(y) for y in x.args))
+                if x.kind == "mcall" and x.name in ("to_owned", "to_string", "into") and not x.args:
+                    return plain(x.recv)
+                return x.kind in ("path", "lit", "boollit", "strlit") or \
+                    (x.kind == "call" and all(plain(y) for y in x.args))
             if not plain(args[0]):
                 raise Unsupported("`Err(..)` whose payload is not a plain value")
             e.res = ("errnone",)
@@ -2071,6 +2091,13 @@ class Checker:
             return self.call_method(e, f, recv, prt, False)
         if isinstance(prt, tuple) and prt[0] == "vec":
             return self.infer_vec_method(e, base, prt)
+        if isinstance(prt, tuple) and prt[0] == "tuple" and len(prt[1]) == 2 and n == "contains" and len(e.args) == 1:
+            # `Range<T>::contains(&x)` on a half-open range value (= the pair (start, end))
+            unify(prt[1][0], prt[1][1], "in `Range::contains`")
+            unify(self.infer(e.args[0]), prt[1][0], "in `Range::contains`")
+            self.need_int(prt[1][0], "contains")
+            e.res = ("rangecontains",)
+            return "bool"
         if isinstance(prt, tuple) and prt[0] == "option":
             if n == "unwrap" and not e.args:
                 e.res = ("optm", n)
@@ -2124,6 +2151,42 @@ class Checker:
                 raise Unsupported("mutation through a reference parameter")
             base.res[1].assigned = True
             return base.res[1]
+        if n in ("push", "add", "truncate", "clear", "remove_range") and base.kind == "field":
+            # mutator on a field place (`self.cache.push(x)` in a `&mut self` method): `place = place.<pure variant>(..)`
+            pure = N("mcall", recv=e.recv, name="__pure_" + n, args=list(args), turbofish=None)
+            e.__dict__.clear()
+            e.kind, e.target, e.op, e.value = "assign", pure.recv, "=", pure
+            return self._infer(e)
+        if n.startswith("__pure_"):
+            m = n[7:]
+            if m in ("push", "add") and len(args) == 1:
+                unify(self.infer(args[0]), el, f"in `{m}`")
+            elif m == "truncate" and len(args) == 1:
+                unify(self.infer(args[0]), "usize", "in `truncate`")
+            elif m == "remove_range" and len(args) == 1:
+                unify(self.infer(args[0]), prt, "in `remove_range`")
+            elif m == "clear" and not args:
+                pass
+            else:
+                raise Unsupported(f"`{m}` with these arguments")
+            e.res = ("vecm", n)
+            return prt
+        if n in ("add", "truncate", "clear", "remove_range"):
+            raise Unsupported(f"`{n}` on something that is not a field of a `&mut self` struct")
+        if n == "rank" and len(args) == 1:
+            unify(self.infer(args[0]), el, "in `rank`")
+            e.res = ("vecm", "bm_rank")
+            return "u64"
+        if n == "select" and len(args) == 1:
+            unify(self.infer(args[0]), "u32", "in `select`")
+            e.res = ("vecm", "bm_select")
+            return ("option", el)
+        if n in ("maximum", "minimum") and not args:
+            e.res = ("vecm", "bm_" + n)
+            return ("option", el)
+        if n == "cardinality" and not args:
+            e.res = ("vecm", "len")
+            return "u64"
         if n == "push" and len(args) == 1:
             b = local_recv()
             unify(self.infer(args[0]), el, "in `push`")
@@ -2319,7 +2382,8 @@ true false""".split())
 
 HELPER_NAMES = set("""u64 addW subW mulW shlW shrW satSub popcount bitLen leadingZeros64 trailingOnes min max some
 none decide not addN subN mulN shlN shrN castN notN satAddN satMulN leadingZerosN trailingZerosN countZerosN
-checkedSub checkedAddN fuel Nat Bool List Option""".split())
+checkedSub checkedAddN fuel Nat Bool List Option bmRank bmSelect bmAdd bmRemoveAll idx unwrapD scanOpt enumerateL ofLE leBytes Flow trailingZeros
+Unit default true false id""".split())
 
 
 def lean_ty(t):
@@ -2435,12 +2499,15 @@ def proj(text, i, n):
 
 
 class Ctx:
-    def __init__(self, mode, on_end, on_break, on_return, on_continue=None):
+    def __init__(self, mode, on_end, on_break, on_return, on_continue=None, on_retval=None):
         self.mode, self.on_end, self.on_break, self.on_return = mode, on_end, on_break, on_return
         self.on_continue = on_continue or _no("`continue` outside a loop")
+        # doc of "the function returns the (already formatted) final result `text`" at this point: identity at
+        # function level, `.ret text` inside a loop that contains a `return` (phase 4)
+        self.on_retval = on_retval or (lambda text: [text])
 
     def but(self, **kw):
-        c = Ctx(self.mode, self.on_end, self.on_break, self.on_return, self.on_continue)
+        c = Ctx(self.mode, self.on_end, self.on_break, self.on_return, self.on_continue, self.on_retval)
         c.__dict__.update(kw)
         return c
 
@@ -2492,7 +2559,7 @@ def has_ctrl(n):
 
 def has_return(n):
     f = [False]
-    walk(n, lambda x: f.__setitem__(0, True) if x.kind == "return" else None)
+    walk(n, lambda x: f.__setitem__(0, True) if x.kind in ("return", "try") else None)   # `e?` may return
     return f[0]
 
 
@@ -2540,6 +2607,8 @@ class Gen:
         self.nclosures = 0
         self.pending = []      # side effects of `next()` inside the expression being translated
         self.used_names = set()
+        self.fin_text = None   # AST of a returned value -> text of the function's final result (set by World._translate)
+        self.ret_lean_ty = None
 
     # ---- names
     def assign_names(self, all_bindings, reserved):
@@ -2623,7 +2692,7 @@ class Gen:
         return " ".join(parts)
 
     def okapp(self, rec, selfargs, args):
-        parts = [rec.lean + "_ok"]
+        parts = [getattr(rec, "lean_ok", None) or (rec.lean + "_ok")]
         for er in rec.env_recs:
             parts.append(self.chk.env_used[er[2]].lean)
         parts += selfargs
@@ -2747,6 +2816,9 @@ class Gen:
                 return self.app(r[1], sa, [self.E(a) for a in e.args])
             if r[0] == "identm":
                 return self.E(e.recv)
+            if r[0] == "rangecontains":
+                rg, x = P(self.E(e.recv)), self.E(e.args[0])
+                return f"decide ({rg}.1 ≤ {x}) && decide ({x} < {rg}.2)"
             if r[0] == "method":
                 return self.app(r[1], self.recv_fields(r[1], self.E(e.recv), r[2]), [self.E(a) for a in e.args])
             if r[0] == "mutmethod":
@@ -2918,6 +2990,24 @@ class Gen:
             return f"List.zip {l} {P(self.E(a[0]))}"
         if m == "enumerate":
             return f"enumerateL {l}"
+        if m == "bm_rank":
+            return f"bmRank {l} {P(self.E(a[0]))}"
+        if m == "bm_select":
+            return f"bmSelect {l} {P(self.E(a[0]))}"
+        if m == "bm_maximum":
+            return f"List.getLast? {l}"
+        if m == "bm_minimum":
+            return f"List.head? {l}"
+        if m == "__pure_push":
+            return f"{l} ++ [{self.E(a[0])}]"
+        if m == "__pure_add":
+            return f"bmAdd {l} {P(self.E(a[0]))}"
+        if m == "__pure_truncate":
+            return f"List.take {P(self.E(a[0]))} {l}"
+        if m == "__pure_clear":
+            return "[]"
+        if m == "__pure_remove_range":
+            return f"bmRemoveAll {l} {P(self.E(a[0]))}"
         raise Unsupported(f"iterator method {m}")
 
     def closure_inline_body(self, c):
@@ -3239,6 +3329,12 @@ class Gen:
             return ctx.on_break()
         if k == "continue":
             return ctx.on_continue()
+        if k == "assert":
+            # `assert!(c)`: panics unless c — a conjunct of `_ok`, nothing in the value
+            if ctx.mode == "ok":
+                c = self.E(e.c)
+                return and_docs([self.conj([self.O(e.c), c])], rest())
+            return rest()
         if k == "assign":
             b = e.binding
             rhs, pend, ok = self.EO(e.value)
@@ -3341,8 +3437,40 @@ class Gen:
         joined = r if (r == ["true"] or not M) else join(r)
         return and_docs([os_] if os_ else None, od, joined)
 
+    # ---- loops.  A loop whose body contains `return` (phase 4) yields `Flow R S`: `.ret r` = the FUNCTION returned
+    # `r` from inside the loop, `.go s` = the loop ended (exhausted / `break` / condition false) in state `s`.
+    def loop_sig(self, S):
+        if not S:
+            return "", "", "", "Unit", "()"
+        sty = " → ".join(atom_ty(b.ty) for b in S) + " → "
+        rty = lean_ty(("tuple", tuple(b.ty for b in S))) if len(S) > 1 else lean_ty(S[0].ty)
+        svars = ", " + ", ".join(b.lean for b in S)
+        sargs = "".join(" " + b.lean for b in S)
+        return sty, svars, sargs, rty, self.state_tuple(S)
+
+    def flow_ty(self, rty):
+        r = self.ret_lean_ty
+        r = r if re.fullmatch(r"[A-Za-z0-9_.]+", r) else "(" + r + ")"
+        t = rty if re.fullmatch(r"[A-Za-z0-9_.]+", rty) else "(" + rty + ")"
+        return f"Flow {r} {t}"
+
+    def flow_call(self, S, call, rest_doc, ctx):
+        """match <loop call> with | .ret r => the function returns r | .go st => let S := st; rest"""
+        r = self.fresh("r")
+        t = self.fresh("st")
+        lets = [f"let {b.lean} := {proj(t, i, len(S))}" for i, b in enumerate(S)] if len(S) > 1 else \
+            ([f"let {S[0].lean} := {t}"] if S else [])
+        if ctx.mode == "ok":
+            if rest_doc == ["true"]:
+                return ["true"]
+            return paren_doc([f"match {call[0]} with", "| .ret _ => true", f"| .go {t if S else '_'} =>"] +
+                             indent(lets + rest_doc))
+        return paren_doc([f"match {call[0]} with", f"| .ret {r} =>"] + indent(ctx.on_retval(r)) +
+                         [f"| .go {t if S else '_'} =>"] + indent(lets + rest_doc))
+
     def for_stmt(self, e, rest, ctx):
-        if has_return(e.body):
+        hasret = has_return(e.body)
+        if hasret and self.fin_text is None:
             raise Unsupported("`return` inside a `for` loop")
         key = id(e)
         it = e.itn
@@ -3358,10 +3486,10 @@ class Gen:
             elty = prune(it.ty)[1]
         if key not in self.loop_names:
             S = self.outer_assigned([e.body])
-            if not S:
+            if not S and not hasret:
                 raise Unsupported("`for` loop that assigns no outer variable")
             inner = declared_in(e.body) + declared_in(e.pat)
-            caps = [b for b in self.used(e.body) if b not in S and b not in inner]
+            caps = [b for b in self.used(e.body) + self.fuel_caps(e.body) if b not in S and b not in inner]
             seen, caps2 = [], []
             for b in caps:
                 if b not in seen:
@@ -3375,11 +3503,7 @@ class Gen:
             restv = self.fresh("rest")
             capdecl = "".join(f" ({b.lean} : {lean_ty(b.ty)})" for b in caps2)
             capargs = "".join(" " + b.lean for b in caps2)
-            sty = " → ".join(atom_ty(b.ty) for b in S)
-            rty = lean_ty(("tuple", tuple(b.ty for b in S))) if len(S) > 1 else lean_ty(S[0].ty)
-            svars = ", ".join(b.lean for b in S)
-            sargs = " ".join(b.lean for b in S)
-            st = self.state_tuple(S)
+            sty, svars, sargs, rty, st = self.loop_sig(S)
             if e.pat.kind == "pident":
                 hd, plets = e.pat.binding.lean, []
             elif e.pat.kind == "pwild":
@@ -3392,35 +3516,46 @@ class Gen:
                 for n, v in reversed(plets):
                     doc = let_doc(n, [v], doc)
                 return doc
-            again = lambda: [f"{lname}{capargs} {restv} {sargs}"]
-            vctx = Ctx("val", again, lambda: [st], _no("`return` in loop"), again)
+            again = lambda: [f"{lname}{capargs} {restv}{sargs}"]
+            if hasret:
+                done = lambda: [f".go {st}"]
+                vctx = Ctx("val", again, done, lambda v: [f".ret {P(self.fin_text(v))}"], again,
+                           lambda t: [f".ret {P(t)}"])
+                rty_full = self.flow_ty(rty)
+            else:
+                done = lambda: [st]
+                vctx = Ctx("val", again, done, _no("`return` in loop"), again)
+                rty_full = rty
             body = wrap(self.seq(self.as_stmts(e.body), 0, None, vctx))
-            d = [f"def {lname}{capdecl} : List {atom_ty(elty)} → {sty} → {rty}",
-                 f"  | [], {svars} => {st}",
-                 f"  | {hd} :: {restv}, {svars} =>"] + indent(body, 4)
-            probe = Ctx("ok", lambda: ["true"], lambda: ["true"], _no("`return` in loop"), lambda: ["true"])
+            d = [f"def {lname}{capdecl} : List {atom_ty(elty)} → {sty}{rty_full}",
+                 f"  | []{svars} => {done()[0]}",
+                 f"  | {hd} :: {restv}{svars} =>"] + indent(body, 4)
+            oret = (lambda v: [(self.O(v) if v is not None else None) or "true"]) if hasret else _no("`return` in loop")
+            probe = Ctx("ok", lambda: ["true"], lambda: ["true"], oret, lambda: ["true"])
             can_panic = self.seq(self.as_stmts(e.body), 0, None, probe) != ["true"]
-            self.aux.append((f"/-- `for` loop {idx} of `{self.rec.rust_name}` (state: {', '.join(b.name for b in S)}), "
-                             f"structural recursion over the iterated list -/", d))
+            self.aux.append((f"/-- `for` loop {idx} of `{self.rec.rust_name}` (state: {', '.join(b.name for b in S) or 'none'}), "
+                             f"structural recursion over the iterated list" +
+                             ("; `.ret r`: the function returned `r` from inside the loop" if hasret else "") + " -/", d))
             if can_panic:
-                oagain = lambda: [f"{xname}{capargs} {restv} {sargs}"]
-                octx = Ctx("ok", oagain, lambda: ["true"], _no("`return` in loop"), oagain)
+                oagain = lambda: [f"{xname}{capargs} {restv}{sargs}"]
+                octx = Ctx("ok", oagain, lambda: ["true"], oret, oagain)
                 obody = wrap(self.seq(self.as_stmts(e.body), 0, None, octx))
-                x = [f"def {xname}{capdecl} : List {atom_ty(elty)} → {sty} → Bool",
-                     f"  | [], {svars} => true",
-                     f"  | {hd} :: {restv}, {svars} =>"] + indent(obody, 4)
+                x = [f"def {xname}{capdecl} : List {atom_ty(elty)} → {sty}Bool",
+                     f"  | []{svars} => true",
+                     f"  | {hd} :: {restv}{svars} =>"] + indent(obody, 4)
                 self.aux.append((f"/-- nothing in `for` loop {idx} of `{self.rec.rust_name}` panics -/", x))
             self.loop_names[key] = (lname, xname, S, caps2, idx, can_panic)
         lname, xname, S, caps2, idx, can_panic = self.loop_names[key]
         capargs = "".join(" " + b.lean for b in caps2)
-        sargs = " ".join(b.lean for b in S)
-        call = [f"{lname}{capargs} {P(lst)} {sargs}"]
+        sargs = "".join(" " + b.lean for b in S)
+        call = [f"{lname}{capargs} {P(lst)}{sargs}"]
         if ctx.mode == "val":
-            return self.unpack(S, call, rest())
+            return self.flow_call(S, call, rest(), ctx) if hasret else self.unpack(S, call, rest())
         r = rest()
         return and_docs([olst] if olst else None,
-                        [f"{xname}{capargs} {P(lst)} {sargs}"] if can_panic else None,
-                        r if r == ["true"] else self.unpack(S, call, r))
+                        [f"{xname}{capargs} {P(lst)}{sargs}"] if can_panic else None,
+                        self.flow_call(S, call, r, ctx) if hasret else
+                        (r if r == ["true"] else self.unpack(S, call, r)))
 
     def state_tuple(self, S):
         if len(S) == 1:
@@ -3478,15 +3613,17 @@ class Gen:
         return and_docs([oc] if oc else None, ite_doc(c, oa, ob), joined)
 
     def while_stmt(self, e, rest, ctx):
-        if has_return(e.body):
+        hasret = has_return(e.body)
+        if hasret and self.fin_text is None:
             raise Unsupported("`return` inside a `while` loop")
         key = id(e)
         if key not in self.loop_names:
             S = self.outer_assigned([e.body])
-            if not S:
+            if not S and not hasret:
                 raise Unsupported("`while` loop that assigns no outer variable")
             inner = declared_in(e.body)
-            caps = [b for b in self.used(e.c) + self.used(e.body) if b not in S and b not in inner]
+            caps = [b for b in self.used(e.c) + self.used(e.body) + self.fuel_caps(e.body)
+                    if b not in S and b not in inner]
             seen, caps2 = [], []
             for b in caps:
                 if b not in seen:
@@ -3502,39 +3639,81 @@ class Gen:
             self.loop_names[key] = (lname, xname, S, caps2, idx)
             capdecl = "".join(f" ({b.lean} : {lean_ty(b.ty)})" for b in caps2)
             capargs = "".join(" " + b.lean for b in caps2)
-            sty = " → ".join(atom_ty(b.ty) for b in S)
-            rty = lean_ty(("tuple", tuple(b.ty for b in S))) if len(S) > 1 else lean_ty(S[0].ty)
-            svars = ", ".join(b.lean for b in S)
-            sargs = " ".join(b.lean for b in S)
-            st = self.state_tuple(S)
+            sty, svars, sargs, rty, st = self.loop_sig(S)
             c = self.E(e.c)
             oc = self.O(e.c)
-            again = lambda: [f"{lname}{capargs} {fuelv} {sargs}"]
-            vctx = Ctx("val", again, lambda: [st], _no("`return` in loop"), again)
+            again = lambda: [f"{lname}{capargs} {fuelv}{sargs}"]
+            if hasret:
+                done = lambda: [f".go {st}"]
+                vctx = Ctx("val", again, done, lambda v: [f".ret {P(self.fin_text(v))}"], again,
+                           lambda t: [f".ret {P(t)}"])
+                rty_full = self.flow_ty(rty)
+            else:
+                done = lambda: [st]
+                vctx = Ctx("val", again, done, _no("`return` in loop"), again)
+                rty_full = rty
             body = self.seq(self.as_stmts(e.body), 0, None, vctx)
-            d = [f"def {lname}{capdecl} : Nat → {sty} → {rty}",
-                 f"  | 0, {svars} => {st}",
-                 f"  | {fuelv}+1, {svars} =>"] + indent(ite_doc(c, body, [st]), 4)
-            oagain = lambda: [f"{xname}{capargs} {fuelv} {sargs}"]
-            octx = Ctx("ok", oagain, lambda: ["true"], _no("`return` in loop"), oagain)
+            d = [f"def {lname}{capdecl} : Nat → {sty}{rty_full}",
+                 f"  | 0{svars} => {done()[0]}",
+                 f"  | {fuelv}+1{svars} =>"] + indent(ite_doc(c, body, done()), 4)
+            oret = (lambda v: [(self.O(v) if v is not None else None) or "true"]) if hasret else _no("`return` in loop")
+            oagain = lambda: [f"{xname}{capargs} {fuelv}{sargs}"]
+            octx = Ctx("ok", oagain, lambda: ["true"], oret, oagain)
             obody = self.seq(self.as_stmts(e.body), 0, None, octx)
-            x = [f"def {xname}{capdecl} : Nat → {sty} → Bool",
-                 f"  | 0, {svars} =>"] + indent(and_docs([oc] if oc else None, [f"!{P(c)}"]), 4) + \
-                [f"  | {fuelv}+1, {svars} =>"] + indent(and_docs([oc] if oc else None, ite_doc(c, obody, ["true"])), 4)
-            fuel = self.fuel.get(idx, 65)
+            x = [f"def {xname}{capdecl} : Nat → {sty}Bool",
+                 f"  | 0{svars} =>"] + indent(and_docs([oc] if oc else None, [f"!{P(c)}"]), 4) + \
+                [f"  | {fuelv}+1{svars} =>"] + indent(and_docs([oc] if oc else None, ite_doc(c, obody, ["true"])), 4)
+            fuel = self.fuel_text(idx)
             self.aux.append((f"/-- `while` loop {idx} of `{self.rec.rust_name}` "
-                             f"(state: {', '.join(b.name for b in S)}; fuel at the call site: {fuel}) -/", d))
+                             f"(state: {', '.join(b.name for b in S) or 'none'}; fuel at the call site: {fuel})" +
+                             ("; `.ret r`: the function returned `r` from inside the loop" if hasret else "") + " -/", d))
             self.aux.append((f"/-- `{lname} … n …` is the state after the `while` loop iff this is `true`: the loop "
                              f"exits within `n` iterations and nothing in it panics -/", x))
         lname, xname, S, caps2, idx = self.loop_names[key]
-        fuel = self.fuel.get(idx, 65)
+        fuel = P(self.fuel_text(idx))
         capargs = "".join(" " + b.lean for b in caps2)
-        sargs = " ".join(b.lean for b in S)
-        call = [f"{lname}{capargs} {fuel} {sargs}"]
+        sargs = "".join(" " + b.lean for b in S)
+        call = [f"{lname}{capargs} {fuel}{sargs}"]
         if ctx.mode == "val":
-            return self.unpack(S, call, rest())
+            return self.flow_call(S, call, rest(), ctx) if hasret else self.unpack(S, call, rest())
         r = rest()
-        return and_docs([f"{xname}{capargs} {fuel} {sargs}"], r if r == ["true"] else self.unpack(S, call, r))
+        return and_docs([f"{xname}{capargs} {fuel}{sargs}"],
+                        self.flow_call(S, call, r, ctx) if hasret else
+                        (r if r == ["true"] else self.unpack(S, call, r)))
+
+    def fuel_text(self, idx):
+        """fuel of `while` / `loop` number idx: a literal, or (phase 4) a string = Lean expression over the function's
+        PARAMETERS by their Rust names (e.g. "2 * List.length nonces + 1"); never trusted (see `_exits`)"""
+        f = self.fuel.get(idx, 65)
+        if isinstance(f, str):
+            def sub(m):
+                b = self.fuel_binding(m.group(0))
+                return b.lean if b is not None else m.group(0)
+            return re.sub(self._FUEL_ID, sub, f)
+        return str(f)
+
+    _FUEL_ID = r"(?<![.A-Za-z0-9_])[A-Za-z_][A-Za-z0-9_]*"
+
+    def fuel_binding(self, name):
+        """a fuel expression names locals / parameters of the function by their Rust names (first declaration)"""
+        for b in list(getattr(self.rec, "all_params", [])) + list(self.chk.bindings):
+            if b.name == name:
+                return b
+        return None
+
+    def fuel_caps(self, body):
+        """bindings named by the string fuels of this function, for a loop that contains a nested `while` / `loop`"""
+        found = [False]
+        walk(body, lambda x: found.__setitem__(0, True) if x.kind == "while" else None)
+        out = []
+        if found[0]:
+            for f in self.fuel.values():
+                if isinstance(f, str):
+                    for tok in re.findall(self._FUEL_ID, f):
+                        b = self.fuel_binding(tok)
+                        if b is not None and b not in out:
+                            out.append(b)
+        return out
 
     def tailexpr(self, t, ctx):
         k = t.kind
@@ -3574,13 +3753,17 @@ class Gen:
 # =============================================================================================
 
 class Entry:
-    def __init__(self, file, impl, fn, lean, out, fuel=None, note="", abstract=None):
+    def __init__(self, file, impl, fn, lean, out, fuel=None, note="", abstract=None, trait=None, rec_fuel=None):
         self.file, self.impl, self.fn, self.lean, self.out = file, impl, fn, lean, out
         self.fuel = fuel or {}
         self.note = note
         # [(rust expression text, parameter name, rust type)]: every occurrence of the expression (token-wise)
         # in the body is replaced by a fresh trailing parameter (for calls into untranslatable code, e.g. a hash)
         self.abstract = abstract or []
+        self.trait = trait          # `impl <trait> for <impl>` (None: inherent impl)
+        # a directly self-recursive function is translated as `<fn>_fuel : Nat → …` (structural recursion on the
+        # fuel; exhausted fuel = `_ok` false) and `<fn> := <fn>_fuel rec_fuel`; sufficiency is proved, not trusted
+        self.rec_fuel = rec_fuel
         self.key = (file, impl, fn)
 
     @property
@@ -3600,6 +3783,14 @@ POWC = "core/src/pow/common.rs"
 LIBTX = "core/src/libtx/mod.rs"
 BMACC = "chain/src/txhashset/bitmap_accumulator.rs"
 P2PMSG = "p2p/src/msg.rs"
+CUCKAROO = "core/src/pow/cuckaroo.rs"
+CUCKAROOD = "core/src/pow/cuckarood.rs"
+CUCKAROOM = "core/src/pow/cuckaroom.rs"
+CUCKAROOZ = "core/src/pow/cuckarooz.rs"
+CUCKATOO = "core/src/pow/cuckatoo.rs"
+PRUNE = "store/src/prune_list.rs"
+
+VERIFY_FUEL = "2 * size + 1"
 
 # (rust file, impl type or None, fn name, lean name, output module, fuel per loop)
 # fuel: every listed loop shifts a u64 by one bit per iteration and stops when it is zero (<= 64
@@ -3705,12 +3896,42 @@ WHITELIST = [
     Entry(BMACC, "BitmapAccumulator", "chunk_start_idx", "BitmapAccumulator_chunk_start_idx", "FnsBitmap"),
     Entry(BMACC, "BitmapAccumulator", "chunk_idx", "BitmapAccumulator_chunk_idx", "FnsBitmap"),
     # p2p/src/msg.rs `max_msg_size` / `enum Type`: regenerated by tools/gen_msg.py (Gen/Msg.lean), not here
+    # phase 4: the cycle verifiers (fuel of the `loop`s: an expression over the parameters, proved sufficient —
+    # never trusted — in Props/XlateVerify*.lean)
+    Entry(POWT, "Proof", "proof_size", "Proof_proof_size", "FnsVerify"),
+    Entry(CUCKAROO, "CuckarooContext", "verify", "Cuckaroo_verify", "FnsVerify", trait="PoWContext",
+          fuel={3: VERIFY_FUEL, 4: VERIFY_FUEL}),
+    # store/src/prune_list.rs (croaring `Bitmap` = ascending `List Nat`)
+    Entry(PRUNE, "PruneList", "is_pruned_root", "PruneList_is_pruned_root", "FnsPrune"),
+    Entry(PRUNE, "PruneList", "get_shift", "PruneList_get_shift", "FnsPrune"),
+    Entry(PRUNE, "PruneList", "get_leaf_shift", "PruneList_get_leaf_shift", "FnsPrune"),
+    Entry(PRUNE, "PruneList", "get_total_shift", "PruneList_get_total_shift", "FnsPrune"),
+    Entry(PRUNE, "PruneList", "get_total_leaf_shift", "PruneList_get_total_leaf_shift", "FnsPrune"),
+    Entry(PRUNE, "PruneList", "calculate_next_shift", "PruneList_calculate_next_shift", "FnsPrune"),
+    Entry(PRUNE, "PruneList", "calculate_next_leaf_shift", "PruneList_calculate_next_leaf_shift", "FnsPrune"),
+    Entry(PRUNE, "PruneList", "is_pruned", "PruneList_is_pruned", "FnsPrune"),
+    Entry(PRUNE, "PruneList", "cleanup_subtree", "PruneList_cleanup_subtree", "FnsPrune"),
+    Entry(PRUNE, "PruneList", "append_single", "PruneList_append_single", "FnsPrune"),
+    Entry(PRUNE, "PruneList", "append", "PruneList_append", "FnsPrune", rec_fuel=64),
+    Entry(PRUNE, "PruneList", "len", "PruneList_len", "FnsPrune"),
+    Entry(PRUNE, "PruneList", "is_empty", "PruneList_is_empty", "FnsPrune"),
+    Entry(CUCKATOO, "CuckatooContext", "verify_impl", "Cuckatoo_verify", "FnsVerify",
+          fuel={3: VERIFY_FUEL, 4: VERIFY_FUEL}),
+    Entry(CUCKAROOZ, "CuckaroozContext", "verify", "Cuckarooz_verify", "FnsVerify", trait="PoWContext",
+          fuel={3: VERIFY_FUEL, 4: VERIFY_FUEL}),
+    Entry(CUCKAROOD, "CuckaroodContext", "verify", "Cuckarood_verify", "FnsVerify", trait="PoWContext",
+          fuel={2: "size + 1", 3: VERIFY_FUEL}),
+    Entry(CUCKAROOM, "CuckaroomContext", "verify", "Cuckaroom_verify", "FnsVerify", trait="PoWContext",
+          fuel={2: "size + 1", 3: "size + 1"}),
 ]
 
 OUT_OF_FILE = {PMMR: "FnsPmmr", CONS: "FnsCons", GLOB: "FnsCons", SEG: "FnsSeg", TXS: "FnsTx", BLK: "FnsCons",
-               POWT: "FnsCons", SIP: "FnsPow", POWC: "FnsPow", LIBTX: "FnsTx", BMACC: "FnsBitmap", P2PMSG: "FnsMsg"}
-OUTS = ["FnsPmmr", "FnsCons", "FnsSeg", "FnsTx", "FnsPow", "FnsBitmap"]
-TYPE_FILES = [PMMR, CONS, GLOB, SEG, TXS, BLK, POWT, SIP, POWC, LIBTX, BMACC, P2PMSG]
+               POWT: "FnsCons", SIP: "FnsPow", POWC: "FnsPow", LIBTX: "FnsTx", BMACC: "FnsBitmap", P2PMSG: "FnsMsg",
+               CUCKAROO: "FnsVerify", CUCKAROOD: "FnsVerify", CUCKAROOM: "FnsVerify", CUCKAROOZ: "FnsVerify",
+               CUCKATOO: "FnsVerify", PRUNE: "FnsPrune"}
+OUTS = ["FnsPmmr", "FnsCons", "FnsSeg", "FnsTx", "FnsPow", "FnsBitmap", "FnsVerify", "FnsPrune"]
+TYPE_FILES = [PMMR, CONS, GLOB, SEG, TXS, BLK, POWT, SIP, POWC, LIBTX, BMACC, P2PMSG,
+              CUCKAROO, CUCKAROOD, CUCKAROOM, CUCKAROOZ, CUCKATOO, PRUNE]
 
 
 def consts_in_consts_lean():
@@ -3753,6 +3974,7 @@ class World:
         self.macro_tabs = {}
         self.gen_consts = consts_in_consts_lean()
         self.report = []       # (entry, status, detail)
+        self.partial = {}      # entry key -> FnRec under construction (direct recursion with `rec_fuel`)
         for e in self.whitelist:
             if e.out not in self.chunks:
                 self.chunks[e.out] = []
@@ -3999,7 +4221,7 @@ class World:
             if entry.impl is None:
                 if it.impl_type() is None and not it.in_mod():
                     found.append(it)
-            elif it.impl_type() == entry.impl and it.impl_trait() is None:
+            elif it.impl_type() == entry.impl and it.impl_trait() == entry.trait:
                 found.append(it)
         if not found:
             raise Unsupported(f"function not found in {entry.file}")
@@ -4015,6 +4237,10 @@ class World:
             self.note_dep(r.out)
             return r
         if entry.key in self.in_progress:
+            if self.in_progress[-1] == entry.key and entry.rec_fuel and entry.key in self.partial:
+                r = self.partial[entry.key]
+                r.is_recursive = True
+                return r
             raise Unsupported(f"recursion through `{entry.rust_name}`")
         self.in_progress.append(entry.key)
         self.cur_out.append(entry.out)
@@ -4077,7 +4303,9 @@ class World:
                 b = chk.declare(name, chk.resolve_type(ty), mut, "param")
                 b.byref = ty[0] == "ref"
                 rec.params.append(b)
-        rec.abstract_names = list(own_abstract)    # provisional (recursion is refused anyway)
+        rec.abstract_names = list(own_abstract)    # provisional
+        rec.is_recursive, rec.env_recs, rec.self_field_names, rec.needs_ok = False, [], [], bool(entry.rec_fuel)
+        self.partial[entry.key] = rec
         bt = chk.infer(ast.body)
         if ast.body.tail is not None:
             unify(bt, chk.ret, "between body and declared return type")
@@ -4111,9 +4339,13 @@ class World:
         g.assign_names(envb + selfbs + chk.bindings, reserved)
         rec.needs_ok = False
         lean_ret = rec.ret
+        rec.all_params = envb + selfbs + ([selfb] if selfb is not None else []) + rec.params
+        g.fin_text = lambda v: g.E(v) if v is not None else _no("`return` without a value")()
         if rec.self_mode == "whole":
             unit = prune(rec.ret) == "unit"
             lean_ret = selfb.ty if unit else ("tuple", (selfb.ty, rec.ret))
+            g.fin_text = (lambda v: selfb.lean) if unit else \
+                (lambda v: f"({selfb.lean}, {g.E(v)})" if v is not None else _no("`return` without a value")())
             fin = (lambda v: [selfb.lean]) if unit else \
                 (lambda v: [f"({selfb.lean}, {g.E(v)})"] if v is not None else _no("`return` without a value")())
             vctx = Ctx("val", (lambda: [selfb.lean]) if unit else _no("function body ends without a value"),
@@ -4121,13 +4353,17 @@ class World:
         else:
             vctx = Ctx("val", _no("function body ends without a value"), _no("`break` outside a loop"),
                        lambda v: [g.E(v)] if v is not None else _no("`return` without a value")())
+        g.ret_lean_ty = lean_ty(lean_ret)
+        if rec.is_recursive:
+            rec.lean, rec.lean_ok, rec.needs_ok = f"{entry.lean}_fuel fuel", f"{entry.lean}_fuel_ok fuel", True
         body = g.seq(ast.body.items, 0, ast.body.tail, vctx)
         octx = Ctx("ok", lambda: ["true"], _no("`break` outside a loop"),
                    lambda v: [(g.O(v) if v is not None else None) or "true"])
         okdoc = g.seq(ast.body.items, 0, ast.body.tail, octx)
         if g.pending:
             raise Unsupported("`next()` in a position where its effect on the iterator cannot be sequenced")
-        rec.needs_ok = okdoc != ["true"]
+        rec.needs_ok = okdoc != ["true"] or rec.is_recursive
+        rec.lean, rec.lean_ok = entry.lean, entry.lean + "_ok"
         plist = envb + selfbs + ([selfb] if selfb is not None else []) + rec.params
         decl = "".join(f" ({b.lean} : {lean_ty(b.ty)})" for b in plist)
         rec.param_doc = ", ".join(f"{b.lean} : {show_ty(b.ty)}" +
@@ -4137,6 +4373,25 @@ class World:
         for doc, d in g.aux:
             lines += [doc] + d + [""]
         where = f"{entry.file}"
+        if rec.is_recursive:
+            tys = " → ".join(atom_ty(b.ty) for b in plist)
+            pv = ", ".join(b.lean for b in plist)
+            pa = " ".join(b.lean for b in plist)
+            base = selfb.lean if (rec.self_mode == "whole" and prune(rec.ret) == "unit") else default_val(lean_ret)
+            lines += [f"/-- `{entry.rust_name}` ({where}) with its direct recursion made structural by `fuel` (exhausted fuel: "
+                      f"the value is a default and `_ok` is false); parameters: {rec.param_doc} -/",
+                      f"def {entry.lean}_fuel : Nat → {tys} → {lean_ty(lean_ret)}",
+                      f"  | 0, {pv} => {base}",
+                      f"  | fuel+1, {pv} =>"] + indent(body, 4) + [""]
+            lines += [f"def {entry.lean}_fuel_ok : Nat → {tys} → Bool",
+                      f"  | 0, {pv} => false",
+                      f"  | fuel+1, {pv} =>"] + indent(okdoc, 4) + [""]
+            lines += [f"/-- `{entry.rust_name}` ({where}), recursion depth at most {entry.rec_fuel} -/",
+                      f"def {entry.lean}{decl} : {lean_ty(lean_ret)} := {entry.lean}_fuel {entry.rec_fuel} {pa}",
+                      f"def {entry.lean}_ok{decl} : Bool := {entry.lean}_fuel_ok {entry.rec_fuel} {pa}"]
+            rec.nloops = g.nloops
+            self.chunks[entry.out].append(lines)
+            return rec
         lines += [f"/-- `{entry.rust_name}` ({where}); parameters: {rec.param_doc or 'none'}; returns {show_ty(rec.ret)} -/",
                   f"def {entry.lean}{decl} : {lean_ty(lean_ret)} :="] + indent(body)
         if rec.needs_ok:
@@ -4269,6 +4524,21 @@ def scanOpt {σ α β : Type} (f : σ → α → σ × Option β) : σ → List 
   | s, x :: xs => match f s x with
     | (s', some y) => y :: scanOpt f s' xs
     | (_, none) => []
+/-- result of a loop whose body contains `return`: `.ret r` = the function returned `r` from inside the loop,
+`.go s` = the loop ended (list exhausted / condition false / `break` / fuel exhausted) in state `s` -/
+inductive Flow (ρ σ : Type) where
+  | ret : ρ → Flow ρ σ
+  | go : σ → Flow ρ σ
+/-- `croaring::Bitmap::rank(x)`: number of elements `≤ x` (a bitmap is the ascending list of its elements) -/
+def bmRank (b : List Nat) (x : Nat) : Nat := b.countP (· ≤ x)
+/-- `Bitmap::select(i)`: the element of rank `i` (0-based) -/
+def bmSelect (b : List Nat) (i : Nat) : Option Nat := b[i]?
+/-- `Bitmap::add(x)`: sorted insert without duplicates -/
+def bmAdd : List Nat → Nat → List Nat
+  | [], x => [x]
+  | y :: ys, x => if x < y then x :: y :: ys else if x = y then y :: ys else y :: bmAdd ys x
+/-- `Bitmap::remove_range(r)`: every element of the range `r` (given as the list of its elements) is removed -/
+def bmRemoveAll (b : List Nat) (r : List Nat) : List Nat := b.filter fun v => !r.contains v
 /-- `Iterator::enumerate` -/
 def enumerateL {α : Type} (l : List α) : List (Nat × α) := (List.range l.length).zip l
 
